@@ -1,26 +1,30 @@
 #!/bin/sh
-# Build everything from files on disk (offline): Lean project, extractor, harness binary.
+# Build everything from files on disk (offline): translator facts, harness binary, constants of the
+# current source, then the whole Lean project (models, proofs, drivers).
 set -e
 cd "$(dirname "$0")/.."
 export GOFLAGS=-mod=mod GOPROXY=off
 mkdir -p .build/bin
-(cd lean && lake build 2>&1 | tail -3)
 python3 - <<'PY'
 import json, os, subprocess, sys
-sys.argv = ["vcheck"]
 import importlib.machinery, importlib.util
 loader = importlib.machinery.SourceFileLoader("vcheck", "tools/vcheck")
 spec = importlib.util.spec_from_loader("vcheck", loader)
 v = importlib.util.module_from_spec(spec); loader.exec_module(v)
 log = []
-print("extractor:", v.run_extractor(log)[0])
+ok_ex, _ = v.run_extractor(log)
+print("extractor:", ok_ex)
 binp, err = v.build_harness({"id": "setup", "harness_files": []}, v.repo_state(), log)
 print("harness:", binp or err)
+produced = v.gen_consts(binp, log, fallback=False) if binp else set()
+print("constants:", len(produced))
 for l in log: print(l)
-# build all drivers
-metas = sorted(f[:-5] for f in os.listdir("meta") if f.startswith("C") and f.endswith(".json"))
-rc, out = v.lake_build(["rdriver_" + m for m in metas])
-print("drivers:", rc)
+rc, out = v.lake_build([])          # default targets: every model, proof and driver module
+print("lake build:", rc)
 if rc != 0: print(out[-3000:])
-sys.exit(0 if binp and rc == 0 else 1)
+metas = sorted(f[:-5] for f in os.listdir("meta") if f.startswith("C") and f.endswith(".json") and len(f) == 8)
+rc2, out2 = v.lake_build(["rdriver_" + m for m in metas])
+print("drivers:", rc2)
+if rc2 != 0: print(out2[-3000:])
+sys.exit(0 if binp and ok_ex and produced and rc == 0 and rc2 == 0 else 1)
 PY
